@@ -76,7 +76,7 @@ func init() {
 		an := l.load("types/ansi")
 		lf := newLean("Comment")
 		for _, c := range []string{"BRD_NORECOMMEND", "BRD_NOBOO", "BRD_IPLOGRECMD", "BRD_ALIGNEDCMT", "FILE_MARKED", "FILE_SOLVED",
-			"COMMENT_TYPE_RECOMMEND", "COMMENT_TYPE_BOO", "COMMENT_TYPE_COMMENT", "IDLEN", "IPV4LEN", "FNLEN"} {
+			"COMMENT_TYPE_RECOMMEND", "COMMENT_TYPE_BOO", "COMMENT_TYPE_COMMENT", "COMMENT_TYPE_BASIC", "IDLEN", "IPV4LEN", "FNLEN"} {
 			lf.nat(c, constInt(pt, c))
 		}
 		lf.nat("ESC", constInt(an, "ESC_CHR"))
